@@ -475,7 +475,7 @@ def closePosition (q : Q) (e : E) (env : Env) (sender vamm quoteLimit : Nat) :
   if p.size.value = 0 then .error (.guard 60) else do
   requireNotRestrictionMode e vamm sender env.height
   let baseDir : Direction := if Integer.gt p.size Integer.zero then .addToAmm else .removeFromAmm
-  let over ← q.isOverFluct vamm .removeFromAmm p.size.value
+  let over ← q.isOverFluct vamm baseDir p.size.value
   if over ∧ e.cfg.plr < e.cfg.decimals then do
     let side := positionToSide p.size
     let x ← cmul p.size.value e.cfg.plr
@@ -499,9 +499,7 @@ def partialLiquidation (q : Q) (e : E) (vamm trader quoteLimit : Nat) : Except E
   let (_, upnl) ← unwrap (positionNotionalPnl q e p .spot)
   let side := positionToSide p.size
   let tmp : TmpSwap := ⟨p.vamm, p.trader, side, partialSize, 0, currentNotional, 0, upnl, Integer.zero, false⟩
-  let msg := if currentNotional > p.notional then
-      swapInputMsg vamm (directionToSide p.direction) p.notional 0 true REPLY_PARTIAL_LIQUIDATION
-    else swapOutputMsg vamm (directionToSide p.direction) partialSize partialLimit REPLY_PARTIAL_LIQUIDATION
+  let msg := swapOutputMsg vamm (directionToSide p.direction) partialSize partialLimit REPLY_PARTIAL_LIQUIDATION
   pure ({ e with tmpSwap := some tmp }, msg)
 
 /-- `liquidate` -/
@@ -666,7 +664,9 @@ def reversePositionReply (q : Q) (e : E) (env : Env) (output : Nat) : Except Err
   let funds ← match e.sentFunds with | some s => pure s | none => .error (.guard 72)
   let p := getPosition env e swap.vamm swap.trader swap.side
   let st ← updateOpenInterest q e e.st swap.vamm (Integer.newNegative output) swap.trader
-  let previousMargin := Integer.newNegative p.margin
+  -- the funding owed since the checkpoint is settled with the trader (as in a close)
+  let rm0 ← calcRemainMargin e p swap.upnl
+  let previousMargin ← Integer.checkedAdd (Integer.newNegative p.margin) rm0.funding
   let p' := clearPosition env p
   let currentOpenNotional := swap.openNotional
   let newOpen := if swap.openNotional > output then swap.openNotional - output else output - swap.openNotional
